@@ -23,6 +23,16 @@ grouping used in several config contexts with augments by different modules into
           node.
   history (implementation) for sets with submodules: everything except the modules that own submodules is loaded and
           processed, then the owners are loaded and everything is processed again; the final dump must be the batch dump.
+  bare    (generator, `sub_unprefixed_schemas`; tie + oracle) augment and deviation paths WITHOUT a prefix on the first step
+          written in a module, its submodules and a nested submodule, for every combination of writer x text defining the
+          first step x spelling of the other steps: what a submodule writes lands in the tree of its module (C12-v).
+  revisions (`revision_schemas`, `revision_check`) one to three loaded revisions of the augmenting module, of its submodule
+          and of the augmented module, imports / includes pinned by revision-date or not, every revision with 0..2
+          augments of its own, chains through what an old revision placed: outside Model/Schema.v, so (i) the oracle
+          checks every tree of the implementation (one per loaded revision) directly -- all revisions of a module are ONE
+          module for InstantiatingModule -- and (ii) the model runs on the set renamed to distinct names (`rev_rename`) and
+          its forest must equal the implementation's trees with the instantiating-module column projected away where the
+          renaming makes a namespace ambiguous (C12-w).
 Both departures found while building this check are fixed in /repo (D58 c376f44; D59 20ac024: the implicit case around a
 shorthand member grafted by another module's augment reported the augmented module's namespace); a recurrence is a
 violation.
@@ -242,12 +252,13 @@ def build(schema):
     return trees
 
 
-def expectations(schema, trees):
-    """{(module, path tuple): dict(ns, ro, inst, implicit, kind, kids)}; path steps are names, '<input>', '<output>'"""
+def expectations(schema, trees, base=lambda n: n):
+    """{(module, path tuple): dict(ns, ro, inst, implicit, kind, kids)}; path steps are names, '<input>', '<output>'.
+    base: tree key -> module name (several loaded revisions of one module are several trees of ONE module)"""
     nsmod = {}
     for m in schema:
-        if m["belongs"] is None:
-            nsmod.setdefault(m["ns"], []).append(m["name"])
+        if m["belongs"] is None and base(m["name"]) not in nsmod.setdefault(m["ns"], []):
+            nsmod[m["ns"]].append(base(m["name"]))
     out = {}
 
     def go(mn, x, path, ns_inh, in_out, last):
@@ -410,15 +421,15 @@ def history_check(res, work, stats):
                           "dump: %s vs %s" % (ops, (c2 or st)[:200], canon[:200]), dict(kind="history", schema=sc, ops=ops, impl=c2, batch=canon))
 
 
-def oracle_check(res, schema, run, stats):
+def oracle_check(res, schema, run, stats, base=lambda n: n, rep=None):
     try:
         trees = build(schema)
     except Skip as e:
         stats["oracle_skipped"][str(e)] = stats["oracle_skipped"].get(str(e), 0) + 1
         return
-    exp = expectations(schema, trees)
+    exp = expectations(schema, trees, base)
     got = dump_nodes(run)
-    rep = dict(kind="oracle", schema=schema)
+    rep = rep or dict(kind="oracle", schema=schema)
     if set(exp) != set(got):
         only_e = sorted(set(exp) - set(got))[:3]
         only_g = sorted(set(got) - set(exp))[:3]
@@ -561,6 +572,327 @@ def hook_schemas(rnd, n):
     return out
 
 
+def sub_unprefixed_schemas(rnd, n):
+    """augment (and deviation) paths written WITHOUT a prefix on the first step -- 'a name without a prefix is a name of the
+    current module' -- in a module and in its submodules (included by the module or nested in another submodule), with
+    every combination of writer (module, submodule, nested submodule) x text that defines the first step (the writer
+    itself, the module, a sibling or nested submodule) x spelling of the remaining steps; targets under config false /
+    true / unset containers, rpc input/output, a choice, and containers that another augment of the set placed.  What a
+    submodule writes belongs to the tree of its module, whatever private tree the lookup starts in."""
+    out = []
+    for _ in range(n):
+        uid = [0]
+
+        def nm(stem):
+            uid[0] += 1
+            return "%s%d" % (stem, uid[0])
+        cfg = lambda: rnd.choice([None, None, True, False])
+        nested = rnd.random() < 0.5                          # ms2 is included by ms1 (merged into ms1's private tree)
+        m = _m("m", "m", "urn:m", includes=["ms1"] + ([] if nested else ["ms2"]),
+               body=[("container", "top", cfg(), [_lf("name"), ("container", "inner", cfg(), [_lf("il")])])])
+        ms1 = _m("ms1", "m", "", belongs="m", includes=["ms2"] if nested else [],
+                 body=[("container", "stats", False, [("container", "counters", None, [_lf("in")])]),
+                       ("container", "settings", cfg(), [("container", "limits", cfg(), [_lf("max")])])])
+        ms2 = _m("ms2", "m", "", belongs="m", body=[("container", "other", cfg(), [("container", "box", cfg(), [])])])
+        # (steps, text that defines the first step)
+        targets = [(["top"], "m"), (["top", "inner"], "m"), (["stats"], "ms1"), (["stats", "counters"], "ms1"),
+                   (["settings"], "ms1"), (["settings", "limits"], "ms1"), (["other"], "ms2"), (["other", "box"], "ms2")]
+        if rnd.random() < 0.5:
+            ms1["body"].append(("rpc", False, "sr", [_lf("si")] if rnd.random() < 0.5 else None, [_lf("so")] if rnd.random() < 0.5 else None))
+            targets += [(["sr", "input"], "ms1"), (["sr", "output"], "ms1")]
+        if rnd.random() < 0.5:
+            ms1["body"].append(("choice", "sch", None, None, None, [_lf("sm")]))
+            targets.append((["sch"], "ms1"))
+        if rnd.random() < 0.4:
+            ms2["body"].append(("list", "rows", "rk", False, None, None, [_lf("rk")]))
+            targets.append((["rows"], "ms2"))
+        mods = {"m": m, "ms1": ms1, "ms2": ms2}
+        sc = [m, ms1, ms2]
+        other = None
+        if rnd.random() < 0.4:                                   # a second module: its paths need the prefix
+            other = _m("t", "t", "urn:t", imports=[("xm", "m")])
+            sc.append(other)
+
+        def spell(steps, style, pfx):
+            if style == 0:
+                return "/" + "/".join(steps)                                       # no prefix anywhere
+            if style == 1:
+                return "/" + "/".join([steps[0]] + [pfx + ":" + x for x in steps[1:]])   # first step bare
+            if style == 2:
+                return "/" + "/".join([pfx + ":" + steps[0]] + steps[1:])          # only the first step prefixed
+            return "/" + "/".join(pfx + ":" + x for x in steps)
+
+        def body_for(steps):
+            b = [_lf(nm("ua"), cfg())]
+            c = None
+            if steps[-1] != "sch" and rnd.random() < 0.5:
+                c = nm("uc")
+                b.append(("container", c, cfg(), [_lf(nm("ul"), cfg())]))
+            return b, c
+        # one augment of every submodule-defined first step by its own writer, first step bare: the defining case
+        plan = []
+        for w in ("ms1", "ms2"):
+            own = [t for t in targets if t[1] == w]
+            plan.append((w, rnd.choice(own), rnd.choice([0, 0, 1])))
+        for _ in range(rnd.randint(1, 4)):
+            plan.append((rnd.choice(["m", "ms1", "ms1", "ms2", "ms2"]), rnd.choice(targets), rnd.randint(0, 3)))
+        rnd.shuffle(plan)
+        for w, (steps, _), style in plan:
+            b, c = body_for(steps)
+            mods[w]["augments"].append((spell(steps, style, "m"), b))
+            if c is not None and rnd.random() < 0.5:              # a chain into the container just placed
+                w2 = rnd.choice(["m", "ms1", "ms2"])
+                mods[w2]["augments"].insert(rnd.randint(0, len(mods[w2]["augments"])),
+                                            (spell(steps + [c], rnd.choice([0, 1, 3]), "m"), [_lf(nm("uch"), cfg())]))
+            elif c is not None and other is not None and rnd.random() < 0.5:
+                other["augments"].append((spell(steps + [c], 3, "xm"), [_lf(nm("ut"), cfg())]))
+        with_oracle = True
+        if rnd.random() < 0.25:                                   # a deviation written in a submodule, bare path: tie only
+            w = rnd.choice(["ms1", "ms2"])
+            leafpath = {"ms1": ["settings", "limits", "max"], "ms2": ["other"]}[w]
+            mods[w]["deviations"].append((spell(leafpath, rnd.choice([0, 1]), "m"), [dict(kind="replace", cfg=rnd.random() < 0.5)]))
+            with_oracle = False
+        out.append((sc, with_oracle))
+    return out
+
+
+# ------------------------------------------------------------------ several loaded revisions of one module
+REV_DATES = ["2017-03-05", "2019-01-01", "2019-11-30", "2021-06-01", "2023-02-28"]
+
+
+def rev_key(m):
+    return m["name"] + ("@" + m["rev"] if m.get("rev") else "")
+
+
+def render_rev(m):
+    """schema_gen.render_module plus revision statements and revision-date substatements of import / include"""
+    if m["belongs"] is None:
+        s = 'module %s {\n  namespace "%s";\n  prefix %s;\n' % (m["name"], m["ns"], m["prefix"])
+    else:
+        s = "submodule %s {\n  belongs-to %s { prefix %s; }\n" % (m["name"], m["belongs"], m["prefix"])
+    for p, mn in m["imports"]:
+        d = m.get("pins", {}).get(p)
+        s += "  import %s { prefix %s; %s}\n" % (mn, p, "revision-date %s; " % d if d else "")
+    for sn in m["includes"]:
+        d = m.get("incpins", {}).get(sn)
+        s += ("  include %s { revision-date %s; }\n" % (sn, d)) if d else ("  include %s;\n" % sn)
+    for d in m.get("revs", []):
+        s += "  revision %s;\n" % d
+    for n in m["body"]:
+        s += sg.render_node(n)
+    for path, body in m["augments"]:
+        s += "  augment %s {\n%s  }\n" % (sg.q(path), "".join(sg.render_node(c, "    ") for c in body))
+    return s + "}\n"
+
+
+def rev_rename(rs):
+    """the revision set as a set of modules with distinct names: the revision filed under the bare name (the most recent
+    one loaded) keeps the name, every other loaded revision is the module `name@revision`; import and include statements
+    name what Modules.FindModule binds them to (name@revision-date when that revision is loaded, else the bare name).
+    -> (plain schema, visiting order of Process: keys of ms.Modules, then of ms.SubModules, in string order)"""
+    newest = {}
+    for m in rs:
+        k = (m["belongs"] is None, m["name"])
+        if k not in newest or newest[k] < rev_key(m):
+            newest[k] = rev_key(m)
+    loaded = {(m["belongs"] is None, rev_key(m)) for m in rs}
+
+    def mname(m):
+        return m["name"] if newest[(m["belongs"] is None, m["name"])] == rev_key(m) else rev_key(m)
+
+    def bind(is_mod, name, date):
+        if date and (is_mod, name + "@" + date) in loaded and newest.get((is_mod, name)) != name + "@" + date:
+            return name + "@" + date
+        return name
+    out, keys = [], {True: [], False: []}
+    for m in rs:
+        x = dict(m)
+        x["name"] = mname(m)
+        x["imports"] = [(p, bind(True, mn, m.get("pins", {}).get(p))) for p, mn in m["imports"]]
+        x["includes"] = [bind(False, sn, m.get("incpins", {}).get(sn)) for sn in m["includes"]]
+        for k in ("rev", "revs", "pins", "incpins"):
+            x.pop(k, None)
+        out.append(x)
+        is_mod = m["belongs"] is None
+        if m.get("rev"):
+            keys[is_mod].append((rev_key(m), x["name"]))
+        if x["name"] == m["name"]:
+            keys[is_mod].append((m["name"], x["name"]))
+    order = [v for _, v in sorted(keys[True])] + [v for _, v in sorted(keys[False])]
+    return out, order
+
+
+def revision_schemas(rnd, n):
+    """module sets in which a module -- the augmenting one b, its submodule bs, the augmented one a -- is loaded in ONE,
+    TWO or THREE revisions at once (different importers pin different revision-dates, or both files were read).  Every
+    loaded revision of b (and of bs) writes 0..2 augments of its own: into a's tree below config false / unset
+    containers, rpc input/output and a choice, into the container another revision placed, into its own tree; a third
+    module c augments what an old revision of b placed.  Every node any loaded text places must be in the tree."""
+    out = []
+    for _ in range(n):
+        uid = [0]
+
+        def nm(stem):
+            uid[0] += 1
+            return "%s%d" % (stem, uid[0])
+        cfg = lambda: rnd.choice([None, None, True, False])
+        dates = sorted(rnd.sample(REV_DATES, 3))
+        # ---- a: the augmented module (one or two revisions; importers bind to the pinned or the most recent one)
+        abody = [("container", "state", False, [_lf("up"), ("container", "hook", None, [])]),
+                 ("container", "settings", None, [_lf("mtu"), ("container", "deep", cfg(), [_lf("d")])]),
+                 ("rpc", False, "run", [_lf("i")], [_lf("o")] if rnd.random() < 0.5 else None),
+                 ("choice", "ch", None, None, None, [_lf("sh")])]
+        atargets = [["state"], ["state", "hook"], ["settings"], ["settings", "deep"], ["run", "input"], ["run", "output"], ["ch"]]
+        a_revs = rnd.choice([0, 1, 1, 2])
+        amods = []
+        for i in range(max(1, a_revs)):
+            d = dates[i] if a_revs else None
+            amods.append(dict(_m("a", "a", "urn:a", body=list(abody) + ([_lf("only%d" % i)] if a_revs == 2 else [])),
+                              rev=d, revs=[x for x in reversed(dates[:i + 1])] if d else []))
+        # ---- b: the augmenting module, 1..3 revisions
+        b_revs = rnd.choice([1, 2, 2, 2, 3])
+        with_sub = rnd.random() < 0.35
+        sub_revs = with_sub and rnd.random() < 0.6               # the submodule has the revisions of its module
+        bmods, smods, placed = [], [], []
+
+        def augs(pfx, k, apin):
+            res = []
+            for _ in range(k):
+                steps = rnd.choice(atargets)
+                b = [_lf(nm("ra"), cfg())]
+                if steps[-1] != "ch" and rnd.random() < 0.5:
+                    c = nm("rc")
+                    b.append(("container", c, cfg(), [_lf(nm("rl"), cfg())]))
+                    placed.append((steps, c, apin))
+                res.append(("/" + "/".join(pfx + ":" + x for x in steps), b))
+            return res
+        for j in range(b_revs):
+            d = dates[j] if (b_revs > 1 or rnd.random() < 0.5) else None
+            apin = dates[rnd.randrange(a_revs)] if a_revs == 2 and rnd.random() < 0.5 else None
+            # boundary counts: an old revision without augments is the harmless case, the newest without is not
+            k = rnd.choice([0, 1, 1, 2])
+            b = dict(_m("b", "b", "urn:b", imports=[("a", "a")], body=[("container", "own", cfg(), [_lf("o%d" % j)])]),
+                     rev=d, revs=[x for x in reversed(dates[:j + 1])] if d else [], pins={"a": apin} if apin else {})
+            b["augments"] = augs("a", k, apin)
+            if rnd.random() < 0.4:
+                b["augments"].append(("/b:own", [_lf(nm("bo"), cfg())]))       # into this revision's own tree
+            if with_sub:
+                b["includes"] = ["bs"]
+                if sub_revs and d:
+                    b["incpins"] = {"bs": d}
+                if sub_revs or j == b_revs - 1:
+                    sd = d if sub_revs else None
+                    sm = dict(_m("bs", "b", "", belongs="b", imports=[("a", "a")], body=[("container", "subc%d" % j, cfg(), [_lf("sl")])]),
+                              rev=sd, revs=[sd] if sd else [], pins={"a": apin} if apin else {})
+                    sm["augments"] = augs("a", rnd.choice([0, 1, 2]), apin)
+                    smods.append(sm)
+            bmods.append(b)
+        rs = amods + bmods + smods
+        # ---- c: augments what some revision of b placed (chain through an augment of an old revision)
+        if placed and rnd.random() < 0.6:
+            steps, cname, apin = rnd.choice(placed)
+            c = dict(_m("c", "c", "urn:c", imports=[("a", "a"), ("b", "b")]), rev=None, revs=[], pins={"a": apin} if apin else {})
+            c["augments"].append(("/" + "/".join(["a:" + x for x in steps] + ["b:" + cname]), [_lf(nm("cl"), cfg())]))
+            if b_revs > 1 and rnd.random() < 0.5:
+                c["pins"]["b"] = rnd.choice(dates[:b_revs])
+            rs.append(c)
+        rnd.shuffle(rs)                                          # the order in which the files are read
+        out.append(rs)
+    return out
+
+
+def revision_feature_sets():
+    """the shapes the family is built around, written out"""
+    def rv(m, *revs, **kw):
+        return dict(m, rev=revs[0] if revs else None, revs=list(revs), **kw)
+    a = rv(_m("a", "a", "urn:a", body=[("container", "state", False, [_lf("up")]), ("container", "settings", None, [_lf("mtu")])]))
+    b1 = rv(_m("b", "b", "urn:b", imports=[("a", "a")],
+               augments=[("/a:state", [_lf("old-drops")]),
+                         ("/a:settings", [("container", "legacy", None, [_lf("knob"), _lf("seen", False)])])]), "2019-01-01")
+    b2 = rv(_m("b", "b", "urn:b", imports=[("a", "a")],
+               augments=[("/a:state", [_lf("drops")]), ("/a:settings", [_lf("knob")])]), "2021-06-01", "2019-01-01")
+    c = rv(_m("c", "c", "urn:c", imports=[("a", "a"), ("b", "b")], augments=[("/a:settings/b:legacy", [_lf("viac", False)])]),
+           pins={"b": "2019-01-01"})
+    one = rv(_m("b", "b", "urn:b", imports=[("a", "a")], augments=[("/a:state", [_lf("old-drops")])]), "2019-01-01")
+    return [[a, b1, b2], [b2, a, b1, c], [a, one]]
+
+
+def rev_go_case(rs):
+    toks = ["process", "-", ",".join(["L%d" % i for i in range(len(rs))] + ["P"]), str(len(rs))]
+    for m in rs:
+        toks += [sg.hx(rev_key(m) + ".yang"), sg.hx(render_rev(m))]
+    return " ".join(toks)
+
+
+def revision_check(res, sets, stats):
+    """several loaded revisions lie outside Model/Schema.v (its modules have distinct names): the set is RENAMED into one
+    the model covers (rev_rename) -- tie: the model's forest of the renamed set against the implementation's trees, every
+    revision's tree under its key, with the instantiating-module column projected away where the renaming makes a
+    namespace ambiguous -- and the source-level oracle runs on the renamed set with all revisions of a module counting as
+    ONE module for InstantiatingModule (the property's text, checked on the implementation directly)."""
+    import json
+    plain = [rev_rename(rs) for rs in sets]
+    go = lib.run_go([rev_go_case(rs) for rs in sets])
+    ml = lib.run_ml([sg.model_case(sc, order=order) for sc, order in plain])
+    bad = 0
+    for rs, (sc, order), g, m in zip(sets, plain, go, ml):
+        rep = dict(kind="revisions", revset=rs)
+        stats["revision_sets"] += 1
+        nrev = {}
+        for x in rs:
+            nrev[x["name"]] = nrev.get(x["name"], 0) + 1
+        stats["revision_sets_multi"] += 1 if any(v > 1 for k, v in nrev.items() if k != "a") else 0
+        if not g.startswith("{"):
+            res.violation("implementation crashed on a set with several revisions: %s" % g[:300], rep)
+            continue
+        j = json.loads(g)
+        if any(l.startswith("err") for l in j["loads"]):
+            res.violation("a revision of a generated module is refused when read: %s" % j["loads"], rep)
+            continue
+        run = j["runs"][-1]
+        if run["errors"]:
+            if m != "err" and bad < 3:
+                bad += 1
+                res.violation("Process reports %s on a set whose every augment has its target (several revisions loaded); "
+                              "the model of the renamed set gives %s" % (run["errors"][:2], m[:200]), rep)
+            continue
+        # every module object under its key: the bare name for the revision filed there, else name@revision
+        for d in run["modules"]:
+            if d["name"] not in d["keys"]:
+                d["name"] = sorted(d["keys"])[0]
+            d["tree"]["name"] = d["name"]
+        before = len(res.violations)
+        oracle_check(res, sc, run, stats, base=lambda n: n.split("@")[0], rep=rep)
+        if len(res.violations) > before:
+            continue
+        nsn = {}
+        for x in sc:
+            if x["belongs"] is None:
+                nsn[x["ns"]] = nsn.get(x["ns"], 0) + 1
+        amb = {ns for ns, k in nsn.items() if k > 1}
+
+        def blank(n):
+            if n["ns"] in amb:
+                n["instmod"] = "ERR"
+            for c in n.get("children") or []:
+                blank(c)
+            for io in ("input", "output"):
+                if n.get(io):
+                    blank(n[io])
+        mods = sorted([d for d in run["modules"] if not d["sub"]], key=lambda d: d["name"].encode())
+        for d in mods:
+            blank(d["tree"])
+        canon = "ok " + " ".join(sg.canon_go_node(d["tree"]) for d in mods)
+        if canon != m:
+            if bad < 3:
+                bad += 1
+                res.violation("several revisions loaded: the trees differ from the model's trees of the renamed set: impl=%s model=%s"
+                              % (canon[:300], m[:300]), dict(rep, impl=canon, model=m))
+        else:
+            stats["revision_tie_ok"] += 1
+
+
+
 def gen_schemas(rnd, n):
     """(schema, with_oracle)"""
     from props import c17
@@ -568,6 +900,8 @@ def gen_schemas(rnd, n):
     # augments over several rounds of {augment, FixChoice} that graft shorthand choice members: every member needs its
     # implied case, attributed to the augmenting module
     out += [(s, True) for s in c17.late_augment_schemas(rnd, max(12, n // 12))]
+    # paths without a prefix on the first step, written in submodules (and modules)
+    out += sub_unprefixed_schemas(rnd, max(40, n // 8))
     for i in range(n):
         r = rnd.random()
         if r < 0.35:
@@ -584,8 +918,9 @@ def run(res, tier, seed, proof):
     n = 320 if tier == "quick" else 6000
     stats = dict(status={}, oracle_skipped={}, oracle_sets=0, oracle_nodes=0, foreign_ns_nodes=0, ro_nodes=0,
                  tie_ok=0, tie_err=0, spec_nodes=0, pinned_walk_differs=0, config_true_below_output_nodes=0,
-                 print_starts=0, print_lines=0, history_sets=0)
+                 print_starts=0, print_lines=0, history_sets=0, revision_sets=0, revision_sets_multi=0, revision_tie_ok=0)
     sets = [(s, True) for s in feature_schemas()] + gen_schemas(rnd, n)
+    revision_check(res, revision_feature_sets() + revision_schemas(rnd, max(40, n // 8)), stats)
     mism = 0
     for i in range(0, len(sets), 500):
         part = sets[i:i + 500]
@@ -622,13 +957,18 @@ def run(res, tier, seed, proof):
              "modules, augments from modules and submodules, choice/case with shorthand members, rpc/action "
              "input/output, notifications) plus hand-written feature sets; tie = whole-forest dump equal; oracle = "
              "every node of every cleanly processed deviation-free set against the source-level expansion; "
-             "non-trivial = a node checked against the oracle",
+             "non-trivial = a node checked against the oracle; plus sets whose submodules (and modules) write augment / "
+             "deviation paths without a prefix on the first step, and sets with one to three loaded revisions of the "
+             "augmenting module, of its submodule and of the augmented module (oracle on the implementation + model of the "
+             "renamed set)",
         exhaustive=False, mismatches=mism, module_sets=len(sets), clean=clean,
         distribution=dict(status=stats["status"], tie_ok=stats["tie_ok"], tie_err=stats["tie_err"],
                           oracle_sets=stats["oracle_sets"], oracle_nodes=stats["oracle_nodes"],
                           nodes_with_foreign_namespace=stats["foreign_ns_nodes"], read_only_nodes=stats["ro_nodes"],
                           oracle_skipped=stats["oracle_skipped"], spec_nodes=stats["spec_nodes"],
-                          history_sets=stats["history_sets"], print_starts=stats["print_starts"], printed_lines_checked=stats["print_lines"],
+                          history_sets=stats["history_sets"], revision_sets=stats["revision_sets"],
+                          revision_sets_with_several_revisions_of_an_augmenting_module=stats["revision_sets_multi"],
+                          revision_tie_ok=stats["revision_tie_ok"], print_starts=stats["print_starts"], printed_lines_checked=stats["print_lines"],
                           nodes_where_pinned_walk_differs=stats["pinned_walk_differs"],
                           nodes_with_config_true_below_output=stats["config_true_below_output_nodes"]),
         samples=[sg.render_module(m)[:300] for m in sets[0][0][:2]],
@@ -640,11 +980,30 @@ def run(res, tier, seed, proof):
                    "abstract schema (schema_gen.render_module / enc_module)",
                    "the oracle runs on module sets without deviation statements (a deviation may rewrite config); sets with "
                    "deviations are covered by the tie only",
-                   "namespaces of the generated modules are pairwise distinct except in the hand-written ambiguity set"]
+                   "namespaces of the generated modules are pairwise distinct except in the hand-written ambiguity set",
+                   "several loaded revisions of one module lie outside Model/Schema.v (module names are distinct there): for "
+                   "these sets the property's text is checked on the implementation directly by the source-level oracle "
+                   "(every node any loaded revision's text places is in the tree with the namespace / read-only flag / "
+                   "instantiating module the text gives; all revisions of a module count as one module), and the model is "
+                   "run on the set renamed to distinct names (older revisions as name@revision, imports/includes bound as "
+                   "Modules.FindModule binds them, visiting order = sorted keys) with the instantiating-module column "
+                   "projected away for the namespaces the renaming makes ambiguous",
+                   "a submodule in the generated sets is always included by (a revision of) its module"]
     return cov, assumptions
 
 
 def replay(rep, res):
+    if rep.get("kind") == "revisions":
+        rs = rep["revset"]
+        for m in rs:
+            print("// file %s.yang" % rev_key(m))
+            print(render_rev(m))
+        r2 = lib.Result("C12", "quick", 0)
+        revision_check(r2, [rs], dict(oracle_skipped={}, oracle_sets=0, oracle_nodes=0, foreign_ns_nodes=0, ro_nodes=0,
+                                      revision_sets=0, revision_sets_multi=0, revision_tie_ok=0))
+        for what, _, _ in r2.violations:
+            print("revisions:", what)
+        return 1 if r2.violations else 0
     sc = rep["schema"]
     for m in sc:
         print(sg.render_module(m))
